@@ -35,10 +35,10 @@ CHECKS = {
          "Oracle-free relations over generated U/A domain pairs from 8 script pools and all IDN TLDs, all-ASCII domains, and IDNA-invalid negatives.",
          "IDNA2008 validity approximated by conservative code-point pools pre-filtered through libidn2.", "DESIGN.md 4/C10"),
  "C11": ("translation_validation", "re-run the repository's generators and diff; live table walk and lookups vs an independent CSV reading",
-         "Both generator programs run on the shipped CSVs and their output is compared line by line with the shipped table/header/test list; the compiled table is walked and every row and many non-rows are looked up through is_tld().",
+         "Both generator programs run on the shipped CSVs and their output is compared line by line with the shipped table/header/test list; the generators are also run on the CSVs plus one synthetic row per documented rule; the compiled table is walked and every row and many non-rows (near misses, bit flips, labels colliding with a row under well-known 32-bit hashes) are looked up through is_tld().",
          "CSV is the source of truth; Text::CSV provided by a shim when absent.", "DESIGN.md 4/C11"),
  "C12": ("exploration", "metamorphic cross-mode monitor (R1-R3) over bounded-exhaustive and corpus addresses",
-         "Relations between the four modes checked on all strings to length 4/5 over 12 tokens (as address, local part, domain) and the C01 corpus, tld off/on.",
+         "Relations between the four modes checked on all strings to length 4/5 over 12 tokens (as address, local part, domain), the C01 corpus and the C07 / C09 domain corpora behind rotating local parts, tld off/on.",
          "IDN exemption as stated in the property.", "DESIGN.md 4/C12"),
  "C15": ("exploration", "sanitizer build + truth-predicate monitor on every diagnostic (code, message, IDN message, setup)",
          "For every rejected call: ret<->errcode, non-empty message, code is a member of the per-part validators' verdicts, the condition named by the code and by the message holds of the input (reference predicates), IDN message equals idn2_strerror; eav_setup on every int class.",
@@ -54,7 +54,7 @@ CHECKS = {
          "All op sequences to length 4/5(6 pruned) and random histories to length 200 on one eav_t; after every eav_is_email a fresh object with the model's settings must give the identical observation (return, code, message, result fields); ledger: previous result released by the next call, nothing live after eav_free.",
          "10-line sequential model of (confirmed mode, tld_check, allow_tld); errstr after a failed setup is judged by C15.", "DESIGN.md 4/C13"),
  "C14": ("exploration", "ThreadSanitizer + helgrind/drd race detection on a stress runner, with sequential-outcome comparison and measured call overlap",
-         "2-16 threads x thousands of calls on 16 shared read-only strings, 13 call kinds, yield/sleep perturbation, several seeds; every outcome compared with a sequential reference; overlapping call pairs measured from per-call clock intervals.",
+         "2-16 threads x thousands of calls on 16 shared read-only strings, 13 call kinds, yield/sleep perturbation, several seeds; every outcome compared with a sequential reference; overlapping call pairs measured from per-call clock intervals; the libidn and idnkit source sets (against a lock-protected adapter) under TSan too; hundreds of cold process starts and IDN-failure storms at full speed.",
          "happens-before detection covers the executed partial orders; libidn2 is uninstrumented (helgrind/drd see it, TSan does not).", "DESIGN.md 4/C14"),
  "C17": ("exploration", "differential monitor across the 8 option builds (12 edges of the option cube) + Makefile dry runs",
          "Same bounded-exhaustive local parts / domains and the address corpus through all 8 builds; documented relation checked along every edge; default Makefile flags read from make -n.",
